@@ -30,7 +30,7 @@ Qed.
 
 (* the body can be obtained: no recorded error, and it is cached or the read succeeds *)
 Definition body_ok (b : body_oracle) (r : response) : Prop :=
-  r_err r = None /\ (r_cached r = true \/ b_read b = None).
+  r_err r = None /\ (r_cached r = true \/ (b_read b = None /\ b_tf b = None)).
 
 Lemma to_bytes_ok : forall b r r1,
   r_present r = true -> to_bytes b r = (r1, None) -> body_ok b r.
@@ -38,7 +38,8 @@ Proof.
   intros b r r1 Hp H. unfold to_bytes in H. unfold body_ok.
   destruct (r_err r) eqn:E; [discriminate|].
   destruct (r_cached r) eqn:C; [auto|].
-  rewrite Hp in H. cbn in H. destruct (b_read b) eqn:R; [discriminate|auto].
+  rewrite Hp in H. cbn in H. destruct (b_read b) eqn:R; [discriminate|].
+  destruct (b_tf b) eqn:Tf; [discriminate|auto].
 Qed.
 
 Lemma to_bytes_fail : forall b r r1 x,
@@ -46,7 +47,7 @@ Lemma to_bytes_fail : forall b r r1 x,
 Proof.
   intros b r r1 x Hp H [E [C|R]]; unfold to_bytes in H; rewrite E in H.
   - rewrite C in H. discriminate.
-  - destruct (r_cached r); [discriminate|]. rewrite Hp in H. cbn in H. rewrite R in H. discriminate.
+  - destruct R as [R Tf]. destruct (r_cached r); [discriminate|]. rewrite Hp in H. cbn in H. rewrite R, Tf in H. discriminate.
 Qed.
 
 (* to_bytes touches only Err and the cache *)
@@ -62,7 +63,7 @@ Proof.
   { inversion H; subst. repeat split; auto. discriminate. }
   destruct (negb (r_present r)).
   { inversion H; subst. repeat split; auto. discriminate. }
-  destruct (b_read b); inversion H; subst; cbn; repeat split; auto; try discriminate;
+  destruct (b_read b); [|destruct (b_tf b)]; inversion H; subst; cbn; repeat split; auto; try discriminate;
   intros x Hx; inversion Hx; auto.
 Qed.
 
@@ -260,7 +261,8 @@ Proof.
   destruct (um_of b w); [right; intros [_ X]; discriminate|].
   destruct (r_err r); [right; intros [[X _] _]; discriminate|].
   destruct (r_cached r); [left; auto|].
-  destruct (b_read b); [right; intros [[_ [X|X]] _]; discriminate|left; auto].
+  destruct (b_read b); [right; intros [[_ [X|[X _]]] _]; discriminate|].
+  destruct (b_tf b); [right; intros [[_ [X|[_ X]]] _]; discriminate|left; auto].
 Qed.
 
 (* what a binding step leaves in (result, error), in terms of [applicable] *)
@@ -403,7 +405,9 @@ Lemma do_call_resp_some : forall fl cfg atts ro e ls, do_call fl cfg atts = DoRe
 Proof.
   intros fl cfg atts ro e ls H. unfold do_call in H. destruct (c_reqerr cfg).
   - inversion H; subst. discriminate.
-  - eapply do_loop_resp_some; eauto.
+  - destruct (retryable_unreplayable cfg).
+    + inversion H; subst. discriminate.
+    + eapply do_loop_resp_some; eauto.
 Qed.
 
 (* A call always returns a non-nil response *)
@@ -919,22 +923,22 @@ Proof. intros fl cfg a x G. unfold round_trip. rewrite G. eexists. split; reflex
 (* an unmarshalling failure surfaces as the round trip's error (unless a later middleware raises) *)
 Lemma unmarshal_error_is_seen : forall fl cfg a s chk b w x,
   a_getbody a = None -> a_transport a = TResp s chk b -> Forall is_user (a_cli a) ->
-  b_read b = None ->
+  b_read b = None -> b_tf b = None ->
   applicable (c_targets cfg) (mkResp true s chk None false false ENone) = Some w -> um_of b w = Some x ->
   exists r l, round_trip fl cfg a = (Some r, r_err r, l) /\ r_err r = last_wins (Some x) (a_cli a) /\
               r_result r = false /\ r_error r = ENone.
 Proof.
-  intros fl cfg a s chk b w x G T F Rd A U. unfold round_trip. rewrite G, T. cbn [receive].
+  intros fl cfg a s chk b w x G T F Rd Tf A U. unfold round_trip. rewrite G, T. cbn [receive].
   set (r2 := mkResp true s chk None false false ENone) in *.
   change (set_err None (set_http true s chk fresh_resp)) with r2.
   set (r3 := auto_read (c_autoread cfg) autoread_status_ok b r2).
   assert (r_err r3 = None /\ r_present r3 = true /\ r_status r3 = s /\ r_chk r3 = chk /\ r_result r3 = false /\ r_error r3 = ENone) as (E3 & P3 & S3 & C3 & R3 & Er3).
   { unfold r3, auto_read. destruct (negb (is_some (r_err r2)) && c_autoread cfg && autoread_status_ok (r_status r2)).
-    - unfold to_bytes. cbn. rewrite Rd. cbn. repeat split; reflexivity.
+    - unfold to_bytes. cbn. rewrite Rd, Tf. cbn. repeat split; reflexivity.
     - cbn. repeat split; reflexivity. }
   assert (applicable (c_targets cfg) r3 = Some w) as A3.
   { unfold applicable in *. unfold result_state in *. rewrite P3, S3, C3. exact A. }
-  assert (body_ok b r3) as B3 by (split; [exact E3|right; exact Rd]).
+  assert (body_ok b r3) as B3 by (split; [exact E3|right; split; [exact Rd|exact Tf]]).
   destruct (unmarshal_failure_surfaces _ _ _ _ _ A3 B3 U) as (X1 & X2 & X3).
   destruct (parse_response_body (c_targets cfg) b r3) as [r4 e4] eqn:Pq. cbn in X1, X2, X3. subst e4.
   destruct (run_cli fl cfg (a_cli a) 0 (set_err (Some x) r4)) as [r6 l6] eqn:R.
@@ -1156,11 +1160,11 @@ Qed.
 
 (* digest: after a successful re-send the pinned middleware leaves the 401's error result bound
    and binds nothing from the 200; the repaired one re-binds *)
-Definition digest_witness_cfg : config := mkCfg (mkTargets true true false) true false None None.
+Definition digest_witness_cfg : config := mkCfg (mkTargets true true false) true false None None false.
 Definition digest_witness_resp : response :=   (* the 401 after auto-read and binding *)
   mkResp true 401 None None true false EReq.
 Definition digest_witness : digest_oracle :=
-  mkDigest None (TResp 200 None (mkBody None None None None)).
+  mkDigest None (TResp 200 None (mkBody None None None None None)).
 
 Lemma digest_pinned_refuted :
   let '(r, _, _) := digest_mw Pinned digest_witness_cfg digest_witness digest_witness_resp in
@@ -1176,7 +1180,7 @@ Proof. vm_compute. repeat split; reflexivity. Qed.
    loop dereference nil; the repaired loop retries with a response in hand *)
 Definition nil_wrapper_attempt : attempt :=
   mkAttempt [] None [WShort true None (Some 1)] None (TFail 2) [] [] false.
-Definition retry_cfg : config := mkCfg (mkTargets false false false) true false (Some (1, false)) None.
+Definition retry_cfg : config := mkCfg (mkTargets false false false) true false (Some (1, false)) None false.
 
 Lemma do_pinned_nil_deref : do_first_pinned Fixed retry_cfg nil_wrapper_attempt = PNilDeref.
 Proof. vm_compute. reflexivity. Qed.
